@@ -1159,15 +1159,94 @@ def scenario_two_checkouts_coverage(sid, sccache, port, verdict, known_ids, comp
 SCENARIOS['two_checkouts_coverage'] = scenario_two_checkouts_coverage
 
 
+def scenario_two_driver_names(sid, sccache, port, verdict, known_ids, drivers):
+    """Both driver names of ONE binary (clang / clang++ are links to the same file) against one server, on a .c input whose
+    language the driver name decides: each request must be compiled the way the name it was issued under compiles it."""
+    root = ROOT_PREFIX + '%d-s%d' % (os.getpid(), sid)
+    shutil.rmtree(root, ignore_errors=True)
+    tree = os.path.join(root, 'w')
+    os.makedirs(tree)
+    write_file(tree, 'unit.c', b'int twice(int x) { return 2 * x; }\n', 1)
+    write_file(tree, 'unit.cpp', b'int thrice(int x) { return 3 * x; }\n', 2)
+    verdict.count('scenario.two-driver-names')
+    for direct_mode in (False, True):
+        sub = os.path.join(root, 'pp' if direct_mode else 'nopp')
+        os.makedirs(sub)
+        srv = Server(sccache, sub, port, direct_mode)
+        tag = '%s %s' % ('/'.join(drivers), 'pp-cache' if direct_mode else 'no-pp-cache')
+        for order in (drivers, drivers[::-1]):
+            srv.start()
+            try:
+                for drv in (order[0], order[1], order[0], order[1]):
+                    for src in ('unit.c', 'unit.cpp'):
+                        args = ['-c', src, '-o', src.split('.')[0] + '.o']
+                        d, w = _both(srv, sccache, drv, args, tree)
+                        # finding C01-S43: everything equal except the driver's own remark about the language it picked
+                        kept = b'\n'.join(l for l in d[2].split(b'\n') if b"treating 'c' input as 'c++'" not in l)
+                        s43 = d[2] != w[2] and kept == w[2] and (d[0], d[1], d[3]) == (w[0], w[1], w[3])
+                        _compare(verdict, tag, drv, args, d, w, 'driver name %s after %s on one server' % (drv, order[0]), known_ids,
+                                 expect_known='C01-S43' if s43 else None, replay={'scenario': 'two_driver_names', 'sid': sid})
+            finally:
+                srv.stop()          # the compiler-info map lives in the server: the second order starts from a fresh one
+                srv.kill_leftovers()
+    shutil.rmtree(root, ignore_errors=True)
+
+
+def scenario_symlinked_include_dir(sid, sccache, port, verdict, known_ids, compiler):
+    """An include directory reached through a symbolic link (-Isdk, sdk -> vendor/sdk-1.2/include) with a header that includes
+    `../defs.h`: lexical and real resolution of that path differ.  defs.h is then edited (other size, same size) between compiles
+    of the unchanged unit; a plain layout without the link is the control."""
+    root = ROOT_PREFIX + '%d-s%d' % (os.getpid(), sid)
+    shutil.rmtree(root, ignore_errors=True)
+    clock = [0]
+
+    def put(rel, content):
+        clock[0] += 1
+        write_file(root, rel, content, clock[0])
+    layouts = {'linked': ('linked/vendor/sdk-1.2/include/api.h', 'linked/vendor/sdk-1.2/defs.h', '-Isdk'),
+               'plain': ('plain/inc/api.h', 'plain/defs.h', '-Iinc')}
+    for name, (api, defs, _) in layouts.items():
+        put(api, b'#include "../defs.h"\nint api(int);\n')
+        put(defs, b'#define LIMIT 10\n')
+        put(name + '/unit.c', b'#include "api.h"\nint api(int x) { return x < LIMIT ? x : LIMIT; }\n')
+    os.symlink('vendor/sdk-1.2/include', os.path.join(root, 'linked', 'sdk'))
+    verdict.count('scenario.symlinked-include-dir')
+    for direct_mode in (True, False):
+        sub = os.path.join(root, 'cache-pp' if direct_mode else 'cache-nopp')
+        os.makedirs(sub)
+        srv = Server(sccache, sub, port, direct_mode)
+        tag = '%s %s' % (compiler, 'pp-cache' if direct_mode else 'no-pp-cache')
+        srv.start()
+        try:
+            for content in (b'#define LIMIT 10\n', b'#define LIMIT 20\n', b'#define LIMIT 300\n', b'#define LIMIT 20\n'):
+                for name, (api, defs, inc) in layouts.items():
+                    put(defs, content)
+                    for rep_ in ('after the edit', 'again'):
+                        args = [inc, '-c', 'unit.c', '-o', 'unit.o']
+                        d, w = _both(srv, sccache, compiler, args, os.path.join(root, name))
+                        _compare(verdict, tag, compiler, args, d, w, 'layout %s, defs.h = %s, %s' % (name, content.decode().strip(), rep_), known_ids,
+                                 replay={'scenario': 'symlinked_include_dir', 'sid': sid, 'compiler': compiler})
+        finally:
+            srv.stop()
+            srv.kill_leftovers()
+    shutil.rmtree(root, ignore_errors=True)
+
+
+SCENARIOS['two_driver_names'] = scenario_two_driver_names
+SCENARIOS['symlinked_include_dir'] = scenario_symlinked_include_dir
+
+
 def scenario_plan(tier):
     """(name, kwargs) list; quick runs each scenario once, thorough for every compiler"""
     plan = [('header_saved_during_compile', dict(real_compiler='gcc', cxx=False)),
             ('two_build_dirs', dict(compiler='gcc')), ('device_output', dict(compiler='gcc')),
-            ('large_objects', dict(compiler='gcc')), ('two_checkouts_coverage', dict(compiler='clang'))]
+            ('large_objects', dict(compiler='gcc')), ('two_checkouts_coverage', dict(compiler='clang')),
+            ('two_driver_names', dict(drivers=['clang', 'clang++'])), ('symlinked_include_dir', dict(compiler='gcc'))]
     if tier == 'thorough':
         plan += [('header_saved_during_compile', dict(real_compiler='clang', cxx=False)),
                  ('header_saved_during_compile', dict(real_compiler='g++', cxx=True)),
                  ('header_saved_during_compile', dict(real_compiler='clang++', cxx=True)),
                  ('two_build_dirs', dict(compiler='clang')), ('device_output', dict(compiler='clang')),
-                 ('large_objects', dict(compiler='clang')), ('two_checkouts_coverage', dict(compiler='gcc'))]
+                 ('large_objects', dict(compiler='clang')), ('two_checkouts_coverage', dict(compiler='gcc')),
+                 ('two_driver_names', dict(drivers=['gcc', 'g++'])), ('symlinked_include_dir', dict(compiler='clang'))]
     return plan
